@@ -17,7 +17,7 @@ import (
 // completion untouched. The invariant of the property is checked after every
 // run. (Go runtime start-up calls are part of the numbering, so all of them
 // are enumerated too; an injected failure there is harmless.)
-func zzNativeInject(path, orig, want string, parsable bool, mode int, kill bool, errno string) {
+func zzNativeInject(path, real, orig, want string, parsable bool, mode int, kill bool, errno string) {
 	bin := os.Getenv("VERIF_EVY_BIN")
 	if bin == "" {
 		fmt.Println("ZZNATIVE-UNSUPPORTED: VERIF_EVY_BIN not set")
@@ -34,9 +34,13 @@ func zzNativeInject(path, orig, want string, parsable bool, mode int, kill bool,
 	for _, sc := range syscalls {
 		// strace counts invocations per system call: inject at the n-th call of sc
 		for n := 1; n <= 60; n++ {
-			os.Chmod(path, 0o600)
-			os.WriteFile(path, []byte(orig), 0o600)
-			os.Chmod(path, os.FileMode(mode))
+			if path != real { // restore the symbolic link if the previous run replaced it
+				os.Remove(path)
+				os.Symlink(real, path)
+			}
+			os.Chmod(real, 0o600)
+			os.WriteFile(real, []byte(orig), 0o600)
+			os.Chmod(real, os.FileMode(mode))
 			cmd := exec.Command("strace", "-f", "-o", log, "-e", "trace="+sc,
 				"-e", "inject="+sc+":"+inj+":when="+strconv.Itoa(n), bin, "fmt", "-w", path)
 			out, err := cmd.CombinedOutput()
@@ -47,6 +51,11 @@ func zzNativeInject(path, orig, want string, parsable bool, mode int, kill bool,
 			}
 			tr, _ := os.ReadFile(log)
 			injected := strings.Contains(string(tr), "(INJECTED)") || strings.Contains(string(tr), "killed by SIGKILL")
+			if path != real {
+				rdata, rm, rok := zzFSGet(real)
+				zzAssert(rok && (rdata == orig || (parsable && rdata == want)), "C18 -w: the file behind a symbolic link holds either its complete original text or the complete formatted text (native: "+inj+" at "+sc+" call "+strconv.Itoa(n)+")")
+				zzAssert(rm == mode, "C18 -w: permission bits of the file behind a symbolic link are unchanged (native)")
+			}
 			data, m, ok := zzFSGet(path)
 			where := " (native: " + inj + " at " + sc + " call " + strconv.Itoa(n) + ")"
 			zzAssert(ok, "C18 -w: the source file still exists"+where)
